@@ -318,6 +318,13 @@ def units(tier, seed):
         k += 1
         descs.append(dict(engines=list(eng), gens=1, Mh=3, seed=s + k % 3, sprout={"kind": ("simple", "nbc")[k % 2], "L": 2}, obj=("sphere_in", "twofunnel")[k % 2], array_memo=True,
                           shared_problem=bool(k % 2 or eng[1] == "LOC"), request_probe=False))
+    # evaluation budgets that run out in the middle of a run (in the middle of a local search, of a CMA-ES generation ...): the
+    # value handed out afterwards is the direction's worst one; also with another shipped wrapper under the budget wrapper
+    for eng in [e for e in shapes if len(e) == 2 and (e[1] in ("LOC", "DE", "SHADE") or e[1].startswith("CMA"))]:
+        for j in range(2):
+            k += 1
+            descs.append(dict(engines=list(eng), gens=1 + k % 2, Mh=4, seed=s + k % 3, sprout={"kind": ("simple", "nbc")[k % 2], "L": 2}, obj=("sphere_in", "twofunnel", "lin_corner")[k % 3],
+                              box=("B_asym", "B_sym")[k % 2], cutoff=[(None, 40, 25)[k % 3], (7, 13, 22, 31)[k % 4]], inner_wrap=(None, "stats", "count")[k % 3]))
     us = [{"kind": "twin", "descs": c} for c in chunks(descs, 12)]
     for n in (2, 3, 4, 5) if tier == "quick" else (2, 3, 4, 5, 6):
         us.append({"kind": "decisions", "n": n})
